@@ -1,0 +1,110 @@
+//! I/O worker used under `--cfg nomt_verif`: the portable pread/pwrite worker of `unix.rs`, with
+//! every operation reported to the simulator first. Completion handling (`IoKind::get_result`,
+//! retry of short and interrupted operations) is the real one.
+
+use super::{CompleteIo, IoCommand, IoKind, IoKindResult, IoPacket, PagePool, PAGE_SIZE};
+use crate::verif::{io_verdict, Op, Verdict};
+use crossbeam_channel::{Receiver, Sender};
+use threadpool::ThreadPool;
+
+pub fn check_iou_permissions() -> super::IoUringPermission {
+    super::IoUringPermission::NotSupported
+}
+
+pub fn start_io_worker(
+    page_pool: PagePool,
+    io_workers_tp: &ThreadPool,
+    io_workers: usize,
+) -> Sender<IoPacket> {
+    let (command_tx, command_rx) = crossbeam_channel::unbounded();
+
+    for _ in 0..io_workers {
+        spawn_worker_thread(page_pool.clone(), io_workers_tp, command_rx.clone());
+    }
+
+    command_tx
+}
+
+fn spawn_worker_thread(
+    page_pool: PagePool,
+    io_workers_tp: &ThreadPool,
+    command_rx: Receiver<IoPacket>,
+) {
+    let work = move || loop {
+        let Ok(packet) = command_rx.recv() else {
+            drop(page_pool);
+            return;
+        };
+        let complete = execute(packet.command);
+        let _ = packet.completion_sender.send(complete);
+    };
+
+    io_workers_tp.execute(work);
+}
+
+fn set_errno(e: i32) {
+    unsafe { *libc::__errno_location() = e };
+}
+
+fn execute(mut command: IoCommand) -> CompleteIo {
+    let result = loop {
+        let off = |page_index: u64| (page_index * PAGE_SIZE as u64) as libc::off_t;
+        let (fd, page_index, ptr, is_read): (i32, u64, *mut u8, bool) = match command.kind {
+            IoKind::Read(fd, page_index, ref mut page) => (fd, page_index, page.as_mut_ptr(), true),
+            IoKind::Write(fd, page_index, ref page) => (fd, page_index, page.as_ptr() as *mut u8, false),
+            IoKind::WriteArc(fd, page_index, ref page) => {
+                let page: &[u8] = &*page;
+                (fd, page_index, page.as_ptr() as *mut u8, false)
+            }
+            IoKind::WriteRaw(fd, page_index, ref mut page) => (fd, page_index, page.as_ptr() as *mut u8, false),
+        };
+        let verdict = if is_read {
+            io_verdict(
+                fd,
+                Op::Read {
+                    off: off(page_index) as u64,
+                    len: PAGE_SIZE,
+                },
+                "pool.read",
+            )
+        } else {
+            let data = unsafe { std::slice::from_raw_parts(ptr as *const u8, PAGE_SIZE) };
+            io_verdict(
+                fd,
+                Op::Write {
+                    off: off(page_index) as u64,
+                    data,
+                },
+                "pool.write",
+            )
+        };
+        let len = match verdict {
+            Verdict::Proceed => PAGE_SIZE,
+            Verdict::Short(n) => n.min(PAGE_SIZE),
+            Verdict::Fail(_) | Verdict::Eintr => 0,
+        };
+        let res = match verdict {
+            Verdict::Fail(errno) => {
+                set_errno(errno);
+                -1
+            }
+            Verdict::Eintr => {
+                set_errno(libc::EINTR);
+                -1
+            }
+            _ if is_read => unsafe {
+                libc::pread(fd, ptr as *mut libc::c_void, len as libc::size_t, off(page_index))
+            },
+            _ => unsafe {
+                libc::pwrite(fd, ptr as *const libc::c_void, len as libc::size_t, off(page_index))
+            },
+        };
+        match command.kind.get_result(res) {
+            IoKindResult::Ok => break Ok(()),
+            IoKindResult::Err => break Err(std::io::Error::last_os_error()),
+            IoKindResult::Retry => (),
+        }
+    };
+
+    CompleteIo { command, result }
+}
